@@ -17,6 +17,11 @@ package dirk
 //@   // assumed of the wallet library: no nil accounts are sent
 //@   chaninv accounts (m): !isnil(m)
 //@   modifies nothing
+//@   // C13 (a corollary of "used only if its name matches a configured specifier" that is under contract; the matching
+//@   // itself is not): a wallet for which no specifier survived yields no account, whatever the signer offers
+//@   loop 1
+//@     invariant res != nil && (len(verificationRegexes) == 0 ==> len(res) == 0 && !shortCircuit)
+//@   ensures len(verificationRegexes) == 0 ==> len(result) == 0
 //@
 //@ // ---- C13: the accounts reported for an epoch are exactly the known accounts whose validator is active in it ----
 //@ // go-eth2-client's ValidatorToState, as its code reads (assumed, the library is a dependency): with no balance
